@@ -1,4 +1,4 @@
 SPECIFICATION Spec
-CONSTANT MaxN = 4
+CONSTANTS MaxN = 4  AsCode = FALSE
 INVARIANT Same
 CHECK_DEADLOCK FALSE
